@@ -229,7 +229,7 @@ def classify_dtype_expr(idx: ProgramIndex, fn: FunctionInfo, e: Optional[ast.exp
 
 def rule_f(idx: ProgramIndex, rep: Report, records: Dict[str, CtorRecord]):
     rep.rule("C14.F", "floating tensor factories carry a dtype derived from an operand", floor=80)
-    rep.rule("C14.F2", "constructor calls of classes taking dtype= pass a derived dtype", floor=8)
+    rep.rule("C14.F2", "constructor calls of classes taking dtype= pass a derived dtype", floor=5)
     dtype_classes = {name for name, r in records.items() if "dtype" in r.all_params()}
     if len(dtype_classes) < 2:
         raise AnalysisError(f"expected ZeroLinearOperator and IdentityLinearOperator to take dtype=, found {dtype_classes}")
@@ -343,7 +343,7 @@ def _mentions_float_test(tests: List[ast.expr], var: Optional[str]) -> bool:
 
 
 def rule_v(idx: ProgramIndex, rep: Report, records: Dict[str, CtorRecord]):
-    rep.rule("C14.V", "dtype conversions of recorded arguments are guarded by a floating-point test", floor=8)
+    rep.rule("C14.V", "dtype conversions of recorded arguments are guarded by a floating-point test", floor=5)
     base = idx.operator_base()
     ops = idx.operator_classes()
 
@@ -619,14 +619,43 @@ def rule_p2(idx: ProgramIndex, rep: Report, records: Dict[str, CtorRecord]):
         for m in ("to", "type"):
             fn = idx.resolve_method(c, m)
             ok = False
+            stale = None
             if fn is not None and fn.cls is not base:
+                # names that carry the TARGET dtype: the parameter `dtype` of type(), the dtype unpacked from _to_helper(),
+                # and anything converted with it (res = self.type(dtype) -> res.dtype)
+                target: Set[str] = {p_ for p_ in fn.params() if p_ == "dtype"}
                 for n in walk_body(fn):
-                    if isinstance(n, ast.Call) and any(k.arg == "dtype" for k in n.keywords):
-                        ok = True
+                    if isinstance(n, ast.Assign) and isinstance(n.value, ast.Call) and "_to_helper" in norm(n.value.func):
+                        for t in n.targets:
+                            target |= {x.id for x in ast.walk(t) if isinstance(x, ast.Name) and "dtype" in x.id}
+                changed = True
+                while changed:
+                    changed = False
+                    for n in walk_body(fn):
+                        if isinstance(n, ast.Assign) and len(n.targets) == 1 and isinstance(n.targets[0], ast.Name) \
+                                and n.targets[0].id not in target and any(isinstance(x, ast.Name) and x.id in target for x in ast.walk(n.value)):
+                            target.add(n.targets[0].id)
+                            changed = True
+                for n in walk_body(fn):
+                    if isinstance(n, ast.Call):
+                        for k in n.keywords:
+                            if k.arg == "dtype":
+                                if any(isinstance(x, ast.Name) and x.id in target for x in ast.walk(k.value)):
+                                    ok = True
+                                elif isinstance(n.func, (ast.Name, ast.Attribute)) and (
+                                        (isinstance(n.func, ast.Attribute) and n.func.attr == "__class__")
+                                        or idx.class_of_expr(fn.module, n.func) is not None):
+                                    stale = n
                     if isinstance(n, ast.Assign) and any(
                             isinstance(t, ast.Subscript) and isinstance(t.slice, ast.Constant) and t.slice.value == "dtype"
                             for t in n.targets):
                         ok = True
+            if stale is not None and fn is not None and fn.cls is c:
+                rep.bad("C14.P2", Finding(PROP, "C14.P2", f"{c.name}.{m}", norm(stale),
+                                          f"{c.name}.{m}: `{short(stale, 80)}` rebuilds the operator with a dtype that does not derive from "
+                                          "the requested one (a stale self.dtype): a conversion that also moves the device returns the "
+                                          "old dtype", fn.loc(stale)))
+                continue
             sample = {"class": c.name, "method": m, "defined_in": fn.cls.name if fn and fn.cls else None, "passes_dtype": ok}
             if ok:
                 rep.ok("C14.P2", sample)
@@ -666,6 +695,52 @@ def rule_g(idx: ProgramIndex, rep: Report):
                     rep.bad("C14.G", Finding(PROP, "C14.G", f"{c.name}._set_requires_grad", norm(n),
                                              "requires_grad_ applied to a recorded argument without a floating dtype "
                                              "test: integer / boolean tensors raise or get a gradient flag", fn.loc(n)))
+
+
+def rule_g2(idx: ProgramIndex, rep: Report):
+    """requires_grad is propagated to EVERY recorded tensor: the loops of _set_requires_grad (and of the requires_grad
+    getter) cover `_args` and a keyword record that holds the tensor-valued keywords."""
+    rep.rule("C14.G2", "requires_grad propagation covers the positional and the tensor-valued keyword record", floor=2)
+    base = idx.operator_base()
+    init = base.methods.get("__init__")
+    tensor_kw: Set[str] = set()
+    plain_kw: Set[str] = set()
+    if init is not None:
+        for n in ast.walk(init.node):
+            if isinstance(n, ast.If) and ("is_tensor" in norm(n.test) or "LinearOperator" in norm(n.test)):
+                for fld, bucket in ((n.body, tensor_kw), (n.orelse, plain_kw)):
+                    for st in fld:
+                        for x in ast.walk(st):
+                            if isinstance(x, ast.Assign):
+                                for t in x.targets:
+                                    if isinstance(t, ast.Subscript) and isinstance(t.value, ast.Attribute) and isinstance(t.value.value, ast.Name) \
+                                            and t.value.value.id == "self":
+                                        bucket.add(t.value.attr)
+    if not tensor_kw:
+        raise AnalysisError("LinearOperator.__init__: the record of tensor-valued keyword arguments was not found")
+    # properties that merge the records (e.g. _kwargs = {**tensor kw, **plain kw}) also cover the tensors
+    covering = set(tensor_kw)
+    for nm, defs in base.all_defs.items():
+        for f_ in defs:
+            if f_.is_property() and not f_.is_setter() and any(
+                    isinstance(x, ast.Attribute) and x.attr in tensor_kw for x in ast.walk(f_.node)):
+                covering.add(nm)
+    for mname in ("_set_requires_grad", "requires_grad"):
+        for f_ in base.all_defs.get(mname, []):
+            if f_.is_setter():
+                continue
+            iterated = {x.attr for n in ast.walk(f_.node) if isinstance(n, (ast.For, ast.comprehension))
+                        for x in ast.walk(n.iter) if isinstance(x, ast.Attribute) and isinstance(x.value, ast.Name) and x.value.id == "self"}
+            sample = {"method": f"{base.name}.{mname}", "iterates": sorted(iterated), "tensor_keyword_record": sorted(covering)}
+            if "_args" in iterated and (iterated & covering):
+                rep.ok("C14.G2", sample)
+            elif not iterated:
+                continue
+            else:
+                rep.bad("C14.G2", Finding(PROP, "C14.G2", f"{base.name}.{mname}", f"iterates {sorted(iterated)}",
+                                          f"{base.name}.{mname} walks {sorted(iterated)} but the tensor-valued keyword arguments live in "
+                                          f"{sorted(tensor_kw)}: floating tensors passed by keyword (KernelLinearOperator hyper-parameters) are "
+                                          "skipped when requires_grad is propagated / read", f_.loc()), sample)
 
 
 # ------------------------------------------------------------------------------------------------
@@ -754,6 +829,7 @@ def run(idx: ProgramIndex, rep: Report, tier: str, selftest: bool = True):
     rule_p2(idx, rep, records)
     rule_n(idx, rep)
     rule_g(idx, rep)
+    rule_g2(idx, rep)
     rule_c(idx, rep)
     # R: the conversion / copy methods that do not go through cls(*_args, **_kwargs) but rebuild explicitly must bind
     #    to the constructor and forward every value-bearing flag (same engine as C02.R, restricted to these methods)
